@@ -202,9 +202,12 @@ func (b *UnsafeLinkBuffer) Peek(n int) (p []byte, err error) {
 
 	// multiple nodes
 
-	// try to make use of the cap of b.cachePeek, if can't, free it.
+	// try to make use of the cap of b.cachePeek, if can't, replace it.
 	if b.cachePeek != nil && cap(b.cachePeek) < n {
-		free(b.cachePeek)
+		// an earlier Peek result may still point into it: it goes back to the pool at Release, not now
+		if cap(b.cachePeek) <= mallocMax {
+			b.caches = append(b.caches, b.cachePeek)
+		}
 		b.cachePeek = nil
 	}
 	if b.cachePeek == nil {
